@@ -366,7 +366,13 @@ def sig_first_round(case, mis):
     return "spec:first-round-unopenable" in mis["kinds"] and not any(k.startswith("model:") for k in mis["kinds"])
 
 
-SIGNATURES = {"first-round-unopenable": sig_first_round, "nilmerge-iter": sig_nilmerge_iter, "zero-gauges-child-existence": sig_child_existence}
+def sig_file_switch(case, mis):
+    """A round kept nothing of the old footer (every collection with persisted data was dropped),
+    the store started a new data file without compacting, and the old file was never unlinked."""
+    return mis["kinds"] == ["spec:stale-files-after-file-switch"]
+
+
+SIGNATURES = {"stale-files-after-file-switch": sig_file_switch, "first-round-unopenable": sig_first_round, "nilmerge-iter": sig_nilmerge_iter, "zero-gauges-child-existence": sig_child_existence}
 
 
 def match_known(pid, case, mis, known):
